@@ -6,7 +6,7 @@ from .types import Ty
 
 class LoopSpec:
     def __init__(self, fingerprint: str, invariants=(), variant: str | None = None, index: str | None = None,
-                 unroll: bool = False, abstract: bool = False, allow_writes=()):
+                 unroll: bool = False, abstract: bool = False, allow_writes=(), ghost: dict | None = None):
         self.fingerprint = fingerprint  # must equal the loop header text in the current source
         self.invariants = list(invariants)  # [(name, expr)]
         self.variant = variant
@@ -16,6 +16,8 @@ class LoopSpec:
         # frame obligation (mode E) shows that nothing it can reach writes a field the contract talks about.
         self.abstract = abstract
         self.allow_writes = tuple(allow_writes)
+        # ghost loop variables: name -> (type, initial expr, expr giving the value after one more iteration)
+        self.ghost = ghost or {}
 
 
 class Raises:
